@@ -12,9 +12,14 @@ RULE = ("symbol arrays of length 1..2e4 (quick) / 1e5 (thorough), 1..4 component
         "implementation (values and consumed bytes); decoder on damaged / truncated blocks and wrong counts compared "
         "with the model under ASan+UBSan; distinct op lines")
 THEOREM_BACKED = ("rans_roundtrip, table_roundtrip, create_sound (any oracle), raw_roundtrip, tagged_roundtrip, "
-                  "symbols_roundtrip (every oracle, scheme, level), symbols_roundtrip_float")
+                  "symbols_roundtrip (every oracle, scheme, level), symbols_roundtrip_float, create_complete (+ sharpness "
+                  "witness), precision_suffices(_table), symbols_failure_characterised, scheme_choice_irrelevant")
 EXPLANATION = ("full proof for every oracle instance; the Float instance of the model reproduces the C++ bytes; the "
-               "ignored result of RAnsSymbolEncoder::Create is the one unproved side condition (model answers none there)")
+               "ignored result of RAnsSymbolEncoder::Create is proved to be `true` for every oracle with five explicit "
+               "properties (monotone, contractive rescale; estimate exact to +1; est 0 = 0; est T <= P), which the exact "
+               "oracle has by proof and the binary64 oracle by assumption (sampled by the rans_oracle cases)")
+ASSUMPTIONS = ["IEEE-754 binary64 (round to nearest, monotone, x/x = 1) gives ProbOracle.float the five properties of "
+               "create_complete; sampled, not proved (Lean's Float is opaque)"]
 TIMEOUT = 3000
 
 
@@ -116,13 +121,28 @@ def generate(rng, tier):
                                   flavour="asan", tags=("dmg_" + what,)))
     # targeted shapes: probability exactly 2^14 (table field boundary), >2 renormalisation bytes per symbol
     for kind in ("halfprob", "longtail"):
-        for _ in range(6 if thorough else 1):
+        for it in range(6 if thorough else (2 if kind == "halfprob" else 1)):
             syms = rand_syms(rng, 0, kind)
+            if kind == "halfprob" and it == 0:
+                # always present: 513 symbols at 15 precision bits, symbol 0 has probability exactly 2^14 (the
+                # boundary between the two- and three-byte table entries)
+                syms = [0] * 512 + list(range(1, 513))
+                rng.shuffle(syms)
             for method in (("-", "1") if thorough or kind == "halfprob" else ("1",)):
                 for level in ("-", "10"):
                     s = ",".join(map(str, syms))
                     cases.append(Case(f"syms_rt {level} {method} 1 {s} -", oracle=rt_oracle(syms, 0), flavour="asan", tags=(f"kind:{kind}",)))
                     cases.append(Case(f"syms_enc {level} {method} 1 {s}", tags=(f"kind:{kind}",)))
+    if thorough:
+        # every value below 2^18 present (2^18 distinct symbols), 20 times each: the automatic selection prefers
+        # the raw scheme (its estimate wins from about 16*2^18 values on) and EncodeRawSymbols then reports failure
+        # (unique-symbols bit length 19 > 18) although the tagged scheme codes the input -- the one `return false`
+        # of the automatic mode (DracoProps.C08 `symbols_failure_characterised`); model and code must agree
+        big = list(range(1 << 18)) * 20
+        rng.shuffle(big)
+        s = ",".join(map(str, big))
+        cases.append(Case(f"syms_rt - - 1 {s} -", oracle=rt_oracle(big, 0), tags=("auto_raw_2^18_unique",)))
+        cases.append(Case(f"syms_rt - 0 1 {s} -", oracle=rt_oracle(big, 0), tags=("auto_raw_2^18_unique",)))
     # decoder on arbitrary bytes
     for _ in range(2000 if thorough else 400):
         b = bytearray(gen.rand_bytes(rng, rng.choice((0, 1, 2, 3, 8, 30, 100))))
@@ -133,8 +153,29 @@ def generate(rng, tier):
         n -= n % c
         n = n or c
         cases.append(Case(f"syms_dec {n} {c} {gen.hexs(bytes(b))}", flavour="asan", tags=("dec_garbage",)))
+    # the hypotheses of `create_complete` sampled on the binary64 oracle of the model (model-only cases)
+    for _ in range(400 if thorough else 120):
+        pb = rng.randint(12, 20)
+        P = 1 << pb
+        T = rng.choice([1, 2, 3, rng.randint(1, 100), rng.randint(1, 1 << 20), rng.randint(1, 1 << 32), rng.randint(1, 1 << 40),
+                        P, P + 1, P - 1, 3 * P])
+        fs = set([1, T, max(1, T - 1), max(1, T // 2), max(1, T // 3)])
+        for _ in range(40):
+            fs.add(rng.randint(1, T))
+            k = rng.randint(0, P)                       # frequencies whose exact estimate is close to k + 1/2
+            f0 = ((2 * k + 1) * T) // (2 * P)
+            for d in (0, 1):
+                if 1 <= f0 + d <= T:
+                    fs.add(f0 + d)
+        A = P + rng.choice([1, 2, rng.randint(1, 64), rng.randint(1, P), rng.randint(1, 1 << 20)])
+        ps = sorted(set([0, 1, 2, 3, P, P + 1, A] + [rng.randint(0, 2 * P) for _ in range(40)]))
+        cases.append(Case(None, model=f"rans_oracle {T} {pb} {','.join(map(str, sorted(fs)))} {A} {','.join(map(str, ps))}",
+                          expect=lambda hout, mout, case: None if mout == "ok" else
+                          f"binary64 oracle violates a hypothesis of create_complete: {mout} for `{case.model}`",
+                          tags=("oracle_hyp",)))
     return cases
 
 
 def replay_cases(lines):
-    return [Case(l) for l in lines]
+    return [Case(None, model=l, expect=lambda hout, mout, case: None if mout == "ok" else f"{mout} for `{case.model}`")
+            if l.startswith("rans_oracle ") else Case(l) for l in lines]
